@@ -11,6 +11,7 @@ sequence number, and every payload submitted is dispatched exactly once, in orde
 from __future__ import annotations
 
 import ast
+import asyncio
 import importlib
 import random
 from typing import Any, Dict, List, Tuple
@@ -217,7 +218,12 @@ async def _run_sessions(combos: List[Tuple[str, str, str, str]], rng: random.Ran
         sizes = _sizes(rng, thorough)
         if rekey:
             sizes = sizes + [rng.choice([4000, 9000])] * 3
-        out.append(await ts.run_session(*combo, rng=rng, sizes=sizes, rekey_bytes=rekey))
+        try:
+            out.append(await asyncio.wait_for(ts.run_session(*combo, rng=rng, sizes=sizes, rekey_bytes=rekey), 120))
+        except asyncio.TimeoutError:
+            # a session that neither completes nor fails (a write or drain waiting for a re-exchange that never
+            # finishes): reported like any other session failure instead of stalling the whole check
+            out.append({'combo': combo, 'sizes': sizes, 'error': 'TimeoutError: session still running after 120 s'})
     return out
 
 
